@@ -171,6 +171,67 @@ REFACTORS = [
         }""", ["C19"]),
 ]
 
+REFACTORS += [
+    ("r-not-started-compare", "core/src/time_scale.rs",
+     """        let time = time - self.delay;
+        if time < 0.0 {
+            return TimeScalePosition::NotStarted;
+        }""",
+     """        if time < self.delay {
+            return TimeScalePosition::NotStarted;
+        }
+        let time = time - self.delay;""", ["C02", "C03", "C10", "C20", "C07"]),
+    ("r-saturating-sub", "core/src/timeline.rs", "Err(next_index) => next_index.max(1) - 1,", "Err(next_index) => next_index.saturating_sub(1),",
+     ["C01", "C20", "C10"]),
+    ("r-position-add", "bevy/src/animator.rs", "animator.timeline_position += time.delta();",
+     "animator.timeline_position = animator.timeline_position + time.delta();", ["C18"]),
+    ("r-reverse-if", "core/src/time_scale.rs",
+     """        let (normalized_time, is_reversing) = match self.reverse {
+            true if cycle_ratio > 0.5 => ((1.0 - cycle_ratio) * 2.0, true),
+            true => (cycle_ratio * 2.0, false),
+            false => (cycle_ratio, false),
+        };""",
+     """        let (normalized_time, is_reversing) = if self.reverse {
+            if cycle_ratio > 0.5 {
+                ((1.0 - cycle_ratio) * 2.0, true)
+            } else {
+                (cycle_ratio * 2.0, false)
+            }
+        } else {
+            (cycle_ratio, false)
+        };""", ["C02", "C03", "C10"]),
+    ("r-is-ended-match", "core/src/animator.rs",
+     """        let Some(current_timeline) = self.timelines.get(&self.current_state) else {
+            return true;
+        };
+        self.state_duration.as_secs_f32() >= current_timeline.duration()""",
+     """        match self.timelines.get(&self.current_state) {
+            None => true,
+            Some(current_timeline) => self.state_duration.as_secs_f32() >= current_timeline.duration(),
+        }""", ["C07"]),
+    ("r-event-before-time", "bevy/src/animator.rs",
+     """        if animator.state != AnimationState::Ended {
+            animator.timeline_position += time.delta();
+        }
+        if state_changed {
+            events.send(AnimationStateChanged::new(entity, animator.state));
+        }""",
+     """        if state_changed {
+            events.send(AnimationStateChanged::new(entity, animator.state));
+        }
+        if animator.state != AnimationState::Ended {
+            animator.timeline_position += time.delta();
+        }""", ["C18"]),
+]
+
+REFACTORS += [
+    ("r-for-each", "core/src/timeline.rs",
+     """        for timeline in &self.timelines {
+            timeline.update(values, time);
+        }""",
+     """        self.timelines.iter().for_each(|timeline| timeline.update(values, time));""", ["C12", "C08"]),
+]
+
 # extra source appended for refactors that introduce a helper
 EXTRA = {
     "r-extract-helper": ("core/src/time_scale.rs", "    fn position_ended(&self) -> TimeScalePosition {",
